@@ -156,6 +156,16 @@ pub fn check_case(ctx: &Ctx, case: &Case, rw: &Rewrite, repeats: usize, with_cli
                 t.count("history.sibling_factor_set_evaluated_first");
             }
             if hr.chance(1, 2) {
+                // a sibling building: the values of two services of one carrier swapped (same carrier totals at every step,
+                // another split between the services)
+                if let Some(sib) = case.spec.sibling_with_swapped_services() {
+                    if let Out::Ok(cs) = safe::parse_components(&sib.to_text()) {
+                        let _ = safe::eval(&cs, &fac, case.k, case.area, case.lm);
+                        t.count("history.sibling_building_evaluated_first");
+                    }
+                }
+            }
+            if hr.chance(1, 2) {
                 // "another building": a one-line gas building, or this building without anything it produces (the
                 // simplified set then keeps every grid factor but lacks the on-site and export factors, so the refusal comes
                 // in the middle of the evaluation, after some carriers have been balanced)
@@ -475,6 +485,10 @@ pub fn run(ctx: &Ctx) -> Report {
             // depend on which system a hash set yields first (either kind of biomass)
             crate::gen::plant_undeclared_biomass_dhw(&mut case.spec, r);
             t.count("cases_with_undeclared_biomass_dhw_output");
+        }
+        if r.chance(1, 100) {
+            crate::gen::plant_many_aux_systems(&mut case.spec, r);
+            t.count("cases_with_more_than_35_systems_with_auxiliaries");
         }
         let rw = gen_rewrite(r);
         check_case(ctx, &case, &rw, repeats, idx % cli_every == 0, t);
